@@ -127,9 +127,9 @@ func (r *soupRunner) cloneInto(dst *soupRunner, copyHALT bool) {
 }
 
 type c10Case struct {
-	Soup     soupCase `json:"soup"`
-	Snapshot int      `json:"snapshot"`          // clone is taken after this many Steps
-	Other    *soupCase `json:"other,omitempty"`  // interleaving partner
+	Soup     soupCase  `json:"soup"`
+	Snapshot int       `json:"snapshot"`        // clone is taken after this many Steps
+	Other    *soupCase `json:"other,omitempty"` // interleaving partner
 }
 
 // c10Clone: the clone taken at boundary k must continue exactly like the original.
@@ -382,6 +382,14 @@ func TestC10Concurrent(t *testing.T) {
 	})
 }
 
+// c10Observers: BIT b,(HL) and BIT b,(IX+d) (bits 5/3 come from an internal register on silicon), SCF / CCF
+// (bits 5/3 depend on whether the previous instruction changed F on silicon), LD A,R / LD A,I (P/V), each
+// followed by PUSH AF so that F also lands in memory.
+var c10Observers = [][]uint8{
+	{0xCB, 0x46, 0xF5}, {0xCB, 0x7E, 0xF5}, {0xCB, 0x5E, 0xF5}, {0xDD, 0xCB, 0x01, 0x6E, 0xF5}, {0xFD, 0xCB, 0xFF, 0x56, 0xF5},
+	{0x37, 0xF5}, {0x3F, 0xF5}, {0xED, 0x5F, 0xF5}, {0xED, 0x57, 0xF5}, {0x00, 0xCB, 0x46, 0xF5}, {0x00, 0x37, 0xF5},
+}
+
 // TestC10Boundary: for every implemented encoding, a CPU rebuilt right after the instruction - with a
 // request pending that the next Step accepts, or with none - continues exactly like the original.
 // This is where a hidden latch set by one instruction and consumed by the next Step would show.
@@ -419,6 +427,16 @@ func TestC10Boundary(t *testing.T) {
 					c.St.IFF1, c.St.IFF2 = true, true
 				}
 			}
+			// what follows the instruction is an "observer": an instruction whose outcome would expose state kept
+			// outside States (undocumented flag sources, latches): it is placed wherever the instruction leaves PC
+			a.load(&c)
+			if _, _, _, p := a.stepOnce(&c, 0); p != nil {
+				continue
+			}
+			obs := c10Observers[int(stats.Hash(d.memSeed, uint64(ei))%uint64(len(c10Observers)))]
+			for i, bb := range obs {
+				c.Actions = append(c.Actions, soupAction{AtStep: 1, Kind: "poke", Addr: a.cpu.PC + uint16(i), Val: int(bb)})
+			}
 			a.load(&c)
 			var full soupTrace
 			a.runAll(&c, 0, &full)
@@ -444,6 +462,9 @@ func TestC10Constructors(t *testing.T) {
 	col := stats.New("C10")
 	col.Sub = "constructors"
 	defer finish(t, col)
+	if env.Shard != 0 {
+		return // deterministic enumeration: one shard does it
+	}
 	run := func(req *z80.Interrupt, im int, memSeed uint64) (z80.States, uint64) {
 		r := &soupRunner{b: bus.New()}
 		r.b.Reset(memSeed, 1, -1, -1)
@@ -481,4 +502,86 @@ func TestC10Constructors(t *testing.T) {
 	}
 	col.Rule = "constructors: for all 256 bytes, IM0Interrupt(b) / IM2Interrupt(b) accepted by a fresh CPU after other CPUs consumed constructor-built requests with the same byte must behave like hand-built requests"
 	col.Sample(1, map[string]any{"constructor": "IM2Interrupt", "byte": 255})
+}
+
+// kindMem wraps one of the bundled memory types (or a plain array) for TestC10MemoryKinds.
+type arrMem struct{ m [65536]uint8 }
+
+func (a *arrMem) Get(x uint16) uint8    { return a.m[x] }
+func (a *arrMem) Set(x uint16, v uint8) { a.m[x] = v }
+
+// TestC10MemoryKinds: "equal memory" means memories that return the same byte at every address. The same
+// program on a sparse MapMemory (only the program bytes are in the map, everything else is the type's
+// default 0xC7), on a dense MapMemory, on a 64 KiB DumbMemory and on a plain array must run alike.
+func TestC10MemoryKinds(t *testing.T) {
+	col := stats.New("C10")
+	col.Sub = "memkinds"
+	defer finish(t, col)
+	col.Rule = "memkinds: byte-soup programs over a memory whose other cells all hold 0xC7, run on a sparse MapMemory, a dense MapMemory, a DumbMemory and a plain array: same States after every Step, same contents at the end"
+	dense := make(z80.DumbMemory, 65536)
+	arr := &arrMem{}
+	rapid.Check(t, func(t *rapid.T) {
+		c := genSoup(t, 16, 40)
+		genSoupIntr(t, &c, 1)
+		sparse := z80.MapMemory{}
+		full := z80.MapMemory{}
+		for i := range dense {
+			dense[i] = 0xC7
+			arr.m[i] = 0xC7
+			full[uint16(i)] = 0xC7
+		}
+		for i, b := range c.Code {
+			a := c.St.PC + uint16(i)
+			sparse[a], full[a], dense[a], arr.m[a] = uint8(b), uint8(b), uint8(b), uint8(b)
+		}
+		mems := []z80.Memory{sparse, full, dense, arr}
+		names := []string{"sparse MapMemory", "dense MapMemory", "DumbMemory", "array"}
+		cpus := make([]z80.CPU, len(mems))
+		ios := make([]*bus.Rec, len(mems))
+		for i := range cpus {
+			ios[i] = bus.New()
+			ios[i].Reset(1, c.IOSeed, 0, c.IOFill)
+			cpus[i] = z80.CPU{Memory: mems[i], IO: ios[i]}
+			eng.ToCPU(&c.St, &cpus[i])
+		}
+		col.Eval(1)
+		for s := 0; s < c.Steps; s++ {
+			for i := range cpus {
+				for _, it := range c.Intr {
+					if it.AtStep == s {
+						if it.NMI {
+							cpus[i].Interrupt = z80.NMIInterrupt()
+						} else {
+							cpus[i].Interrupt = &z80.Interrupt{Type: z80.IMType, Data: toBytes(it.Data)}
+						}
+					}
+				}
+				if p := eng.SafeStep(&cpus[i]); p != nil {
+					if i == 0 {
+						col.Label("discarded:step-panics")
+						return
+					}
+					violation(t, "C10", "det", c10Case{Soup: c}, "same run on every memory that returns the same bytes", fmt.Sprintf("Step %d panics on %s only: %v", s+1, names[i], p))
+				}
+				if i > 0 && cpus[i].States != cpus[0].States {
+					g, w := stFromStates(cpus[i].States), stFromStates(cpus[0].States)
+					violation(t, "C10", "det", c10Case{Soup: c}, "same run on every memory that returns the same bytes",
+						fmt.Sprintf("Step %d on %s differs from %s: %s", s+1, names[i], names[0], fmtStateDiff(&g, &w)))
+				}
+			}
+		}
+		for a := 0; a < 65536; a++ {
+			v := mems[0].Get(uint16(a))
+			for i := 1; i < len(mems); i++ {
+				if mems[i].Get(uint16(a)) != v {
+					violation(t, "C10", "det", c10Case{Soup: c}, "same contents at the end", fmt.Sprintf("mem[%04x] = %02x on %s, %02x on %s", a, mems[i].Get(uint16(a)), names[i], v, names[0]))
+				}
+			}
+		}
+		h := stateHash(&c.St)
+		for _, b := range c.Code {
+			h = stats.Hash(h, uint64(b))
+		}
+		col.Distinct(h)
+	})
 }
